@@ -40,7 +40,9 @@ def harness(inp, wd, tag):
 
 
 def cmp_obs(exp, got):
-    return all(exp[k] == got[k] for k in ("futDropped", "outTaken", "npolls", "runq"))
+    # the output (a value that counts its drops) is released exactly once iff the specification has it taken or dropped
+    out_drops = 1 if (exp["outTaken"] or exp["outDropped"]) else 0
+    return all(exp[k] == got[k] for k in ("futDropped", "outTaken", "npolls", "runq")) and got.get("outDrops", out_drops) == out_drops
 
 
 def validate(script, with_promise, threads, runs, wd, tag):
